@@ -11,7 +11,9 @@ Theorems (coq/Props/C13.v) are about coq/Model/Cdx.v.  Ties:
     the geometric model applies; `check_resolve`: label -> fragment).
  Oracle (implementation alone): independent constitution walk, signed volumes of non-planar centres (mirror =>
     inverted, other variants => kept), parsing twice gives identical results, a label resolves to the same fragment
-    whatever was accessed before.
+    whatever was accessed before; SESSIONS on CDXMLFile objects (f[label], f[int], iteration, load / load_all, keys(),
+    two objects of one file) interleaved with in-place edits of molecules handed out earlier: every lookup equals the
+    one-shot parse, a held molecule changes only through the caller's own edits (`check_session` in Coq).
 """
 import os, re, json, math, itertools, copy, warnings
 import xml.etree.ElementTree as ET
@@ -778,6 +780,7 @@ def run(ctx, rep):
     if ctx.thorough:
         kinds += ["mirror+translate", "permute+renumber", "mirror+translate+permute+renumber"] * 3
     ccases, cmeta, gcases, gmeta, rcases, rmeta = [], [], [], [], [], []
+    SESS["cases"], SESS["meta"] = [], []
 
     def viol(sig, text, replay):
         rep.violate(sig, text, replay)
@@ -812,9 +815,11 @@ def run(ctx, rep):
     rep.extra["phase_s"]["shards_geom"] = round(time.time() - t0, 1); t0 = time.time()
     bad_r = vlib.run_shards(ctx, rep, "resolve", HEADER, "check_resolve", rcases, shard=10) if rcases else []
     rep.extra["phase_s"]["shards_resolve"] = round(time.time() - t0, 1); t0 = time.time()
+    bad_s = vlib.run_shards(ctx, rep, "session", HEADER, "check_session", SESS["cases"], shard=8) if SESS["cases"] else []
+    rep.extra["phase_s"]["shards_session"] = round(time.time() - t0, 1); t0 = time.time()
     coverage_flags(ctx, rep, gcases, gmeta)
     rep.extra["phase_s"]["geom_coverage"] = round(time.time() - t0, 1)
-    rep.extra["case_counts"] = {"const": len(ccases), "geom": len(gcases), "resolve": len(rcases)}
+    rep.extra["case_counts"] = {"const": len(ccases), "geom": len(gcases), "resolve": len(rcases), "session": len(SESS["cases"])}
 
     # ---------------------------------------------------------------- verdict on broken obligations
     if not tables_ok:
@@ -840,7 +845,7 @@ def run(ctx, rep):
                 rep.violate(f"C13:display-decision:{d}", f"probe bond Display={d!r}: observed out-of-plane pattern {pat}, the drawing "
                             f"convention gives {py_ring_star(d)}", {"kind": "display-row", "display": d})
         vlib.broken_obligation(rep, "C13_props", f"{where}\n{out[-1500:]}", found_real())
-    for tag, bad, meta in (("const", bad_c, cmeta), ("geom", bad_g, gmeta), ("resolve", bad_r, rmeta)):
+    for tag, bad, meta in (("const", bad_c, cmeta), ("geom", bad_g, gmeta), ("resolve", bad_r, rmeta), ("session", bad_s, SESS["meta"])):
         if bad is None:
             vlib.broken_obligation(rep, f"corr_{tag}", "a correspondence shard did not compile: " + json.dumps(rep.extra.get("shard_errors", ""))[-1500:], found_real())
         elif bad:
@@ -961,6 +966,9 @@ def judge_file(ctx, rep, ml, fr, nm, kind, src, base, viol, ccases, cmeta, gcase
         relate(rep, fr, kind, base, per_frag, viol, replay)
     # labels
     judge_labels(ctx, rep, ml, fr, nm, kind, per_frag, viol, replay, rcases, rmeta)
+    # sessions on one CDXMLFile object: lookups through every accessor, interleaved with edits of earlier results
+    if kind in SESSION_KINDS:
+        judge_sessions(ctx, rep, ml, fr, nm, kind, per_frag, viol)
     return per_frag
 
 
@@ -1077,6 +1085,397 @@ def judge_labels(ctx, rep, ml, fr, nm, kind, per_frag, viol, replay, rcases, rme
             rep.count("labels:not-modelled(non-ascii)")
 
 
+# ====================================================================== sessions on one CDXMLFile object
+# The molecule a lookup hands out belongs to the caller: whatever the caller does to it, a later lookup (same label or
+# another one, same accessor or another one, same CDXMLFile object or another one of the same file) must again describe
+# the DRAWING, and a molecule handed out earlier must change only through the caller's own edits of it.
+SESSION_KINDS = ("orig", "mirror")
+SESS = {"cases": [], "meta": []}
+EDITS = ["add_h", "translate", "turn", "scale", "coords_inplace", "del_ap", "del_atom", "add_atom", "rename", "charge_mult",
+         "element", "atom_label", "atom_charge", "atom_spin", "atom_iso", "atom_attrib", "atom_type", "bond_type",
+         "del_bond", "mol_attrib"]
+SNAP_FIELDS = ("atoms", "bonds", "charge", "mult")
+
+
+def snap(ml, m):
+    """observation of a molecule in the caller's hands (observe + the attribute dictionaries)"""
+    try:
+        o = observe(ml, m)
+        o["attribs"] = [dict(a.attrib) for a in m.atoms]
+        o["mattrib"] = dict(getattr(m, "attrib", {}) or {})
+        return o
+    except Exception as e:   # noqa  an edit left it in a state that cannot be inspected: that state is its snapshot
+        return {"unobservable": type(e).__name__}
+
+
+def snap_diff(a, b, name=True, attribs=True):
+    """None when equal at the granularity of the property, else a short text"""
+    if ("unobservable" in a) or ("unobservable" in b):
+        return None if a == b else f"{a.get('unobservable', 'observable')} / {b.get('unobservable', 'observable')}"
+    if len(a["atoms"]) != len(b["atoms"]):
+        return f"{len(a['atoms'])} atoms / {len(b['atoms'])} atoms"
+    if len(a["bonds"]) != len(b["bonds"]):
+        return f"{len(a['bonds'])} bonds / {len(b['bonds'])} bonds"
+    for i, (x, y) in enumerate(zip(a["atoms"], b["atoms"])):
+        if x != y:
+            return f"atom {i}: {x} / {y}"
+    for i, (x, y) in enumerate(zip(a["bonds"], b["bonds"])):
+        if x != y:
+            return f"bond {i}: {x} / {y}"
+    if a["charge"] != b["charge"] or a["mult"] != b["mult"]:
+        return f"charge, multiplicity {a['charge']}, {a['mult']} / {b['charge']}, {b['mult']}"
+    if a["coords"].shape != b["coords"].shape or not np_().array_equal(a["coords"], b["coords"]):
+        dv = float(np_().max(np_().abs(a["coords"] - b["coords"]))) if a["coords"].shape == b["coords"].shape else float("nan")
+        return f"coordinates differ (max deviation {dv:.4f})"
+    if name and a["name"] != b["name"]:
+        return f"name {a['name']!r} / {b['name']!r}"
+    if attribs and "attribs" in a and "attribs" in b and (a["attribs"] != b["attribs"] or a["mattrib"] != b["mattrib"]):
+        return "attribute dictionaries differ"
+    return None
+
+
+def apply_edit(ml, m, what, arg):
+    """the ordinary next steps of a caller, all IN PLACE on a molecule it was handed"""
+    np = np_()
+    n = m.n_atoms
+    a = m.atoms[arg % n] if n else None
+    if what == "add_h":
+        m.add_implicit_hydrogens()
+    elif what == "translate":
+        m.translate([1.0 + arg % 3, 2.0, -3.0])
+    elif what == "turn":
+        m.coords = np.ascontiguousarray(m.coords[:, [1, 2, 0]]) * [1.0, -1.0, 1.0]
+    elif what == "scale":
+        m.scale(2.0)
+    elif what == "coords_inplace":
+        m.coords[:, 2] += 5.0
+        m.coords[arg % n] = 0.25
+    elif what == "del_ap":
+        aps = m.attachment_points
+        m.del_atom(aps[arg % len(aps)] if aps else m.atoms[-1])
+    elif what == "del_atom":
+        m.del_atom(a)
+    elif what == "add_atom":
+        m.add_atom(ml.Atom("Cl", label="new"), [9.0, 9.0, 9.0])
+    elif what == "rename":
+        m.name = "edited"
+    elif what == "charge_mult":
+        m.charge = m.charge + 3
+        m.mult = m.mult + 2
+    elif what == "element":
+        a.element = "Si" if int(a.element) != 14 else "Ge"
+    elif what == "atom_label":
+        a.label = "ZZ"
+    elif what == "atom_charge":
+        a.formal_charge = (a.formal_charge or 0) + 2
+    elif what == "atom_spin":
+        a.formal_spin = (a.formal_spin or 0) + 1
+    elif what == "atom_iso":
+        a.isotope = 99
+    elif what == "atom_attrib":
+        a.attrib["__implicit_hydrogens"] = 7
+        a.attrib["edited"] = 1
+    elif what == "atom_type":
+        a.atype = ml.AtomType.Dummy
+    elif what == "bond_type":
+        if m.n_bonds:
+            m.bonds[arg % m.n_bonds].btype = ml.BondType.Triple
+    elif what == "del_bond":
+        if m.n_bonds:
+            m.del_bond(m.bonds[arg % m.n_bonds])
+    elif what == "mol_attrib":
+        m.attrib["edited"] = True
+    else:
+        raise ValueError(what)
+
+
+def gen_session(rng, keys, n_frags, length):
+    """ops (plain JSON): lookups through every accessor on two CDXMLFile objects of the file and through the reader's
+    entry points, interleaved with edits of results handed out earlier (addressed as [op index, sub index])"""
+    ops, handles = [], []
+    focus = rng.sample(keys, min(len(keys), rng.randint(1, 3))) if keys else []
+    n = len(keys)
+    while len(ops) < length:
+        r = rng.random()
+        j = len(ops)
+        if handles and r < 0.42:
+            h = rng.choice(handles[-4:]) if rng.random() < 0.7 else rng.choice(handles)
+            ops.append(["edit", h, rng.choice(EDITS), rng.randrange(0, 64)])
+            continue
+        if r < 0.47 and keys:
+            ops.append(["keys", rng.randrange(2)])
+            continue
+        k = rng.choice(focus) if (focus and rng.random() < 0.8) else (rng.choice(keys) if keys else None)
+        acc = rng.choice(["get", "get", "get", "geti", "geti", "iter", "load", "load0", "load_all"] if keys else ["load0", "load_all"])
+        o = 0 if rng.random() < 0.75 else 1
+        if acc == "get":
+            ops.append(["get", o, k]); handles.append([j, 0])
+        elif acc == "geti":
+            i = keys.index(k)
+            ops.append(["geti", o, i - n if rng.random() < 0.3 else i]); handles.append([j, 0])
+        elif acc == "iter":
+            # the iteration protocol on an object with __getitem__ only: f[0], f[1], ... until IndexError
+            m = -1 if (n <= 20 and rng.random() < 0.4) else min(n, max(keys.index(k) + 1, 1), 12)
+            ops.append(["iter", o, m])
+            cnt = n if m < 0 else m
+            handles.append([j, keys.index(k) if keys.index(k) < cnt else 0])
+        elif acc == "load":
+            ops.append(["load", k]); handles.append([j, 0])
+        elif acc == "load0":
+            ops.append(["load0"]); handles.append([j, 0])
+        else:
+            ops.append(["load_all"]); handles.append([j, rng.randrange(n_frags)])
+    return ops
+
+
+class SessionEnv:
+    """what a session is judged against: the labels of the file and the ONE-SHOT result of every lookup (a fresh
+    CDXMLFile object per label, nothing done before) and of every top-level fragment (load_all)"""
+
+    def __init__(self, ml, path, keys, per_frag):
+        self.ml, self.path, self.keys = ml, path, keys
+        self.ref = {}
+        for k in keys:
+            try:
+                with warnings.catch_warnings():
+                    warnings.simplefilter("ignore")
+                    self.ref[k] = ("ok", snap(ml, load_file(ml, path)[k]))
+            except Exception as e:   # noqa
+                self.ref[k] = ("raise", type(e).__name__)
+        self.frag_ref = [r["obs"] for r in per_frag]
+
+
+def run_session(env, ops, events=None):
+    """Drive the real reader through `ops`.  Returns None or (signature, text, index of the op that showed it).
+    events: optional list receiving ('get', obj, key, status, snap) / ('parse', i, snap) / ('edit', h, snap) /
+    ('look', h, snap) for the Coq case (h = allocation number of the molecule)."""
+    ml, keys = env.ml, env.keys
+    files = [load_file(ml, env.path), load_file(ml, env.path)]
+    # the order in which an object lists its labels is its own business (f[int] and the iteration follow it); it must
+    # list the labels of the file and must not change during the session
+    order = [list(f.keys()) for f in files]
+    held = {}          # (op, sub) -> [molecule, last snapshot, allocation number, history of own edits]
+    alloc = [0]
+
+    def hand_out(j, sub, m, want, accessor, name, what):
+        s = snap(ml, m)
+        d = snap_diff(want, s, name=name, attribs=("attribs" in want))
+        if d is not None:
+            done = [f"{o[2]} of the result of op {o[1][0]}" for o in ops[:j] if o[0] == "edit"]
+            return (f"C13:session:result-differs:{accessor}",
+                    f"op {j} {ops[j]}: {what} does not describe the drawing any more (one-shot parse / this lookup: {d}); "
+                    f"edits made by the caller to EARLIER results: {done[-6:]}", j)
+        held[(j, sub)] = [m, s, alloc[0], []]
+        alloc[0] += 1
+        return None
+
+    def lookup(j, accessor, obj, key, fn):
+        want = env.ref[key]
+        try:
+            with warnings.catch_warnings():
+                warnings.simplefilter("ignore")
+                m = fn()
+        except Exception as e:   # noqa
+            if events is not None:
+                events.append(("get", obj, key, "raise", None))
+            if want[0] == "ok":
+                return (f"C13:session:raises:{accessor}", f"op {j} {ops[j]}: label {key!r} parses on its own but raised "
+                        f"{type(e).__name__} in this session", j)
+            return None
+        if want[0] != "ok":
+            return (f"C13:session:raises:{accessor}", f"op {j} {ops[j]}: label {key!r} is refused on its own ({want[1]}) "
+                    f"but was parsed in this session", j)
+        bad = hand_out(j, 0, m, want[1], accessor, True, f"the lookup of {key!r}")
+        if events is not None:
+            events.append(("get", obj, key, "ok", snap(ml, m)))
+        return bad
+
+    fresh = [2]
+    for j, op in enumerate(ops):
+        kind = op[0]
+        bad = None
+        if kind == "get":
+            bad = lookup(j, "getitem-label", op[1], op[2], lambda: files[op[1]][op[2]])
+        elif kind == "geti":
+            if len(order[op[1]]) == len(keys) and order[op[1]][op[2]] in env.ref:
+                bad = lookup(j, "getitem-int", op[1], order[op[1]][op[2]], lambda: files[op[1]][op[2]])
+        elif kind == "iter":
+            got = []
+            try:
+                with warnings.catch_warnings():
+                    warnings.simplefilter("ignore")
+                    for m in files[op[1]]:
+                        got.append(m)
+                        if op[2] >= 0 and len(got) >= op[2]:
+                            break
+            except Exception as e:   # noqa  a refused drawing stops the iteration: judged for the labels before it
+                pass
+            ikeys = order[op[1]]
+            if op[2] < 0 and all(env.ref[k][0] == "ok" for k in keys) and len(got) != len(keys):
+                bad = ("C13:session:iteration-length", f"op {j} {op}: iterating the file gave {len(got)} molecules for {len(keys)} labels", j)
+            for i, m in enumerate(got):
+                if bad is None and i < len(ikeys) and ikeys[i] in env.ref and env.ref[ikeys[i]][0] == "ok":
+                    bad = hand_out(j, i, m, env.ref[ikeys[i]][1], "iteration", True, f"item {i} ({ikeys[i]!r}) of the iteration")
+                    if events is not None:
+                        events.append(("get", op[1], ikeys[i], "ok", snap(ml, m)))
+        elif kind == "load":
+            obj = fresh[0]
+            fresh[0] += 1
+            bad = lookup(j, "load-key", obj, op[1], lambda: ml.load(env.path, fmt="cdxml", key=op[1]))
+        elif kind in ("load0", "load_all"):
+            try:
+                with warnings.catch_warnings():
+                    warnings.simplefilter("ignore")
+                    got = [ml.load(env.path, fmt="cdxml")] if kind == "load0" else ml.load_all(env.path, fmt="cdxml")
+            except Exception as e:   # noqa
+                got = None
+                if all(r is not None for r in (env.frag_ref[:1] if kind == "load0" else env.frag_ref)):
+                    bad = (f"C13:session:raises:{kind}", f"op {j} {op}: raised {type(e).__name__} in this session, parses on its own", j)
+            if got is not None and kind == "load_all" and len(got) != len(env.frag_ref):
+                bad = ("C13:session:iteration-length", f"op {j} {op}: {len(got)} molecules for {len(env.frag_ref)} drawn fragments", j)
+            for i, m in enumerate(got or []):
+                if bad is None and env.frag_ref[i] is not None:
+                    bad = hand_out(j, i, m, env.frag_ref[i], kind.replace("_", "-"), False, f"fragment {i}")
+                    if events is not None:
+                        events.append(("parse", i, snap(ml, m)))
+        elif kind == "keys":
+            f = files[op[1]]
+            now = list(f.keys())
+            if now != order[op[1]] or len(f) != len(now) or {k for k in now if k is not None} != set(keys):
+                bad = ("C13:session:keys-changed", f"op {j} {op}: keys() lists {list(f.keys())[:8]}... (len {len(f)}), the file has "
+                       f"the labels {keys[:8]}... ({len(keys)})", j)
+        elif kind == "edit":
+            h = held.get(tuple(op[1]))
+            if h is not None:
+                try:
+                    with warnings.catch_warnings():
+                        warnings.simplefilter("ignore")
+                        apply_edit(ml, h[0], op[2], op[3])
+                except Exception:   # noqa  an edit the molecule refuses: whatever state it is in now is the caller's
+                    pass
+                h[1] = snap(ml, h[0])
+                h[3].append(op[2])
+                if events is not None:
+                    events.append(("edit", h[2], h[1]))
+        else:
+            raise ValueError(op)
+        if bad is not None:
+            return bad
+        # frame: a molecule handed out earlier changes only through the caller's own edits of it
+        for hk, h in held.items():
+            if kind == "edit" and tuple(op[1]) == hk:
+                continue
+            d = snap_diff(h[1], snap(ml, h[0]))
+            if d is not None:
+                return (f"C13:session:earlier-result-changed:{kind if kind != 'edit' else 'edit-of-another-result'}",
+                        f"op {j} {op}: the molecule handed out by op {hk[0]} (item {hk[1]}; own edits so far {h[3]}) changed although "
+                        f"the caller did not touch it (before / after: {d})", j)
+    if events is not None:
+        for hk, h in held.items():
+            events.append(("look", h[2], snap(ml, h[0])))
+    return None
+
+
+def minimise_session(env, ops, sig):
+    """greedy removal of ops that are not needed for the same signature (edits of a removed lookup become no-ops)"""
+    ops = [list(o) for o in ops]
+    i = len(ops) - 2
+    budget = 60
+    while i >= 0 and budget > 0:
+        budget -= 1
+        cand = [o for k, o in enumerate(ops) if k != i]
+        # re-address the edits
+        cand2 = []
+        for o in cand:
+            if o[0] == "edit":
+                if o[1][0] == i:
+                    continue
+                o = ["edit", [o[1][0] - (1 if o[1][0] > i else 0), o[1][1]], o[2], o[3]]
+            cand2.append(o)
+        try:
+            r = run_session(env, cand2)
+        except Exception:   # noqa
+            r = None
+        if r is not None and r[0] == sig:
+            ops = cand2[:r[2] + 1]
+        i = min(i, len(ops) - 1) - 1
+    return ops
+
+
+def cq_snap(s):
+    if "unobservable" in s:
+        raise Untypable("unobservable molecule")
+    return cq_mol(s)
+
+
+def session_case(env, fr, per_frag, events):
+    """Coq term of one session: (typed drawings, label -> drawing, events)"""
+    np = np_()
+    typed = []
+    for fg in fr.frags:
+        typed.append(cq_xfrag(typed_frag(fg)))
+    keymap = []
+    for k in env.keys:
+        if env.ref[k][0] != "ok":
+            continue
+        o1 = env.ref[k][1]
+        hits = [i for i, r in enumerate(per_frag) if r["obs"] is not None and snap_diff(r["obs"], o1, name=False, attribs=False) is None]
+        if not hits:
+            raise Untypable("label not identified")
+        keymap.append(f"({cq_s(k)}, {cq_nat(hits[0])})")
+    evs = []
+    for e in events:
+        if e[0] == "get":
+            evs.append(f"(EGet {cq_nat(e[1])} {cq_s(e[2])} {'Raise' if e[3] != 'ok' else '(Ok ' + cq_snap(e[4]) + ')'})")
+        elif e[0] == "parse":
+            evs.append(f"(EParse {cq_nat(e[1])} (Ok {cq_snap(e[2])}))")
+        elif e[0] == "edit":
+            evs.append(f"(EEdit {cq_nat(e[1])} {cq_snap(e[2])})")
+        else:
+            evs.append(f"(ELook {cq_nat(e[1])} {cq_snap(e[2])})")
+    return f"({cq_list(typed)}, {cq_list(keymap)}, {cq_list(evs)})"
+
+
+def judge_sessions(ctx, rep, ml, fr, nm, kind, per_frag, viol):
+    import random
+    keys = [k for k in fr.labels if k is not None]
+    if fr.f is None or not per_frag:
+        return
+    env = SessionEnv(ml, fr.path, keys, per_frag)
+    n_sess = (6 if not ctx.thorough else 24) if not nm.startswith("synth") else (3 if not ctx.thorough else 8)
+    n_coq = 2 if not ctx.thorough else 6
+    for si in range(n_sess):
+        rng = random.Random(f"{ctx.seed}:{nm}:{kind}:{si}")
+        ops = gen_session(rng, keys, len(per_frag), rng.randint(6, 18))
+        events = [] if si < n_coq else None
+        r = run_session(env, ops, events)
+        rep.case(key=(nm, kind, "session", si), sample={"file": nm, "variant": kind, "ops": ops[:6]})
+        rep.count("sessions")
+        for o in ops:
+            rep.count("session-op:" + o[0] + (":" + o[2] if o[0] == "edit" else ""))
+        # a lookup of a label after an edit of an earlier result of the SAME label: the dimension that matters
+        seen_edit = set()
+        for o in ops:
+            if o[0] == "edit":
+                tgt = ops[o[1][0]]
+                seen_edit.add(tgt[2] if tgt[0] == "get" else keys[tgt[2]] if tgt[0] == "geti" else None)
+            elif o[0] in ("get", "geti") and (o[2] if o[0] == "get" else keys[o[2]]) in seen_edit:
+                rep.count("session:lookup-after-edit-of-same-label")
+                break
+        if r is not None:
+            sig, text, at = r
+            small = minimise_session(env, ops[:at + 1], sig)
+            viol(sig, f"{fr.tag} session {si}: {text}", {"kind": "session", "source": nm, "variant": kind, "seed": ctx.seed,
+                                                       "ops": small, "all_ops": ops[:at + 1]})
+            break            # one report per file is enough
+        if events:
+            try:
+                SESS["cases"].append(session_case(env, fr, per_frag, events))
+                SESS["meta"].append(f"{fr.tag} session {si}")
+            except Untypable:
+                rep.count("session:not-modelled")
+
+
 # ====================================================================== synthetic drawings
 def synth_documents(ctx, rng):
     """Generated drawings: random trees / rings with ONE stereo bond each (every Display, both directions, centres of
@@ -1185,6 +1584,28 @@ def replay(ctx, data):
         for v in got:
             if want is None or v.replay.get("fragment") == want:
                 out.append(v)
+    elif data.get("kind") == "session":
+        import random
+        nm, kind = data["source"], data["variant"]
+        if nm.startswith("synth"):
+            # the synthetic documents are the first thing drawn from the run's generator
+            src = dict(synth_documents(ctx, random.Random(data.get("seed", 0) * 1000003 + 13)))[nm]
+        else:
+            src = os.path.join(vlib.REPO, "molli", "files", nm + ".cdxml")
+        path = src
+        if kind != "orig":
+            path = os.path.join(ctx.sub("replay"), "variant.cdxml")
+            with open(path, "w") as fh:
+                fh.write(indent_free(variant_tree(ET.parse(src).getroot(), kind, random.Random(0))))
+        fr = FileRun(ml, path, f"{nm}:{kind}")
+        mols = fr.parse_all() or []
+        per_frag = [dict(obs=o if st == "ok" else None) for st, o in mols]
+        env = SessionEnv(ml, path, [k for k in fr.labels if k is not None], per_frag)
+        r = run_session(env, data["ops"])
+        if r is None and data.get("all_ops"):
+            r = run_session(env, data["all_ops"])
+        if r is not None:
+            out.append(vlib.Violation(r[0], f"{fr.tag}: {r[1]}", data))
     elif data.get("kind") in ("node-row", "bond-row", "display-row"):
         nodes_t, bonds_t, disps_t = write_tables(ctx, ml)
         for t, o, atom in nodes_t:
